@@ -44,6 +44,7 @@ def run(ctx):
 
 def guards_with_class(fi, repo, noreturn=()):
     """[(canonical guard, error class name, node)] for every raising guard of fi"""
+    _REPO[0] = repo
     out = []
     for g, n in raising_guards(fi.node, repo, fi.module, fi.cls, None, noreturn):
         body = n.body if flow.always_raises(n.body, noreturn) else n.orelse
@@ -59,6 +60,9 @@ def has(texts, t):
     return canon_text(t) in texts
 
 
+_REPO = [None]
+
+
 def expect(r, key, fi, guards, accepted, errcls, what, measure=None):
     accepted = [canon_text(a) for a in accepted]
     for g, cls, n in guards:
@@ -68,6 +72,16 @@ def expect(r, key, fi, guards, accepted, errcls, what, measure=None):
             else:
                 r.violated(key, common.site_of(fi, n), '%s is signalled by %s, not %s' % (what, cls, errcls))
             return n
+    # the test is made and its branch holds nothing but `pass`: the refusal was taken out
+    for n in ast.walk(fi.node):
+        if isinstance(n, ast.If) and n.body and all(isinstance(x, ast.Pass) for x in n.body) and not n.orelse:
+            try:
+                g0 = canon_guard(n.test, fi.repo if hasattr(fi, 'repo') else _REPO[0], fi.module)
+            except Exception:
+                continue
+            if g0 in accepted:
+                r.violated(key, common.site_of(fi, n), '%s: `%s` is tested and nothing is refused (the branch holds only `pass`)' % (what, g0), sure=True)
+                return None
     mention = measure
     if isinstance(measure, tuple):
         measure, mention = measure
@@ -252,6 +266,25 @@ def rule_block(ctx, repo):
     texts = [g for g, n in mg]
     r.check(has(texts, '%s.hashMerkleRoot != %s.calc_merkle_root()' % (blk, blk)), 'merkle-root', common.site_of(fi, mk[0]), 'declared root must equal the computed root', 'merkle comparison missing: %s' % texts)
     r.check(has(texts, 'len(%s.vWitnessMerkleTree)' % blk), 'witness-section', common.site_of(fi, mk[0]), 'commitment checked whenever any witness data is present', 'no `if len(block.vWitnessMerkleTree):` section')
+    lens = [(g, n) for g, n in mg if 'len(commit_script)' in g]
+    from ..rules import equiv as _eq3
+    if len(lens) == 1 and id(lens[0][1]) in raising_ids:
+        v_ = _eq3(lens[0][0], 'len(commit_script) < 38 or len(commit_script) > 39')
+        if v_ is True:
+            r.ok('witness-commitment:length', common.site_of(fi, lens[0][1]), 'commitment output of 38 or 39 bytes')
+        elif v_ is False:
+            r.violated('witness-commitment:length', common.site_of(fi, lens[0][1]), 'the commitment output is refused when `%s`; the confirmed rule refuses lengths other than 38 and 39 bytes' % lens[0][0], sure=True)
+        else:
+            r.undecided('witness-commitment:length', common.site_of(fi, lens[0][1]), 'length rule `%s` not compared' % lens[0][0])
+    else:
+        r.undecided('witness-commitment:length', common.site_of(fi, mk[0]), 'no single raising test on len(commit_script)')
+    # a commitment that cannot be located is a rejection: the ValueError of get_witness_commitment_index becomes CheckBlockError
+    for t_ in [n for n in ast.walk(mk[0]) if isinstance(n, ast.Try)]:
+        if any('get_witness_commitment_index' in norm(x) for x in t_.body):
+            hs = [h for h in t_.handlers if h.type is not None and norm(h.type) in ('ValueError', 'Exception')]
+            ok_h = bool(hs) and all(flow.always_raises(h.body, ()) and any(isinstance(x, ast.Raise) and isinstance(x.exc, ast.Call) and norm(x.exc.func) == E for x in ast.walk(h)) for h in hs)
+            r.check(ok_h, 'witness-commitment:missing-is-refused', common.site_of(fi, t_), 'a missing commitment raises CheckBlockError',
+                    'the handler around get_witness_commitment_index() does not raise CheckBlockError: a witness block without a commitment output is not refused', sure=bool(hs))
     want_w = ['commit != Hash(root + nonce)']
     r.check(all(has(texts, w) for w in want_w), 'witness-commitment', common.site_of(fi, mk[0]), 'commitment == SHA256d(witness root || nonce)', 'commitment comparison is missing: %s' % texts)
     nonce_rules = [g for g in texts if 'coinbase_wit' in g or 'nonce' in g]
@@ -264,6 +297,16 @@ def rule_block(ctx, repo):
             'witness root and bytes 6..38 of the commitment output', 'root=%s commit=%s' % (root, commit))
     classes_ = {cls for g, cls, n in gs}
     r.check(classes_ <= {E}, 'error-class', fi.site, 'every rejection is CheckBlockError', 'CheckBlock rejects with %s' % sorted(str(c) for c in classes_ - {E}))
+    common.rule_defaults(r, repo, [(CORE + 'CheckBlock', 'fCheckPoW', True, 'CheckBlock(block) accepts a block without proof of work'),
+                                   (CORE + 'CheckBlock', 'fCheckMerkleRoot', True, 'CheckBlock(block) accepts a block whose transactions do not match the header'),
+                                   (CORE + 'CheckBlock', 'cur_time', None, 'the timestamp rule is judged against a fixed time')])
+    # the sigop total starts at zero
+    inits = [n for n in fi.node.body if isinstance(n, ast.Assign) and norm(n.targets[0]) == 'nSigOps']
+    if len(inits) == 1:
+        iv = repo.fold(inits[0].value, fi.module)
+        r.check(iv == 0 and not isinstance(iv, bool), 'sigops:starts-at-zero', common.site_of(fi, inits[0]), 'nSigOps = 0', 'the sigop total of CheckBlock starts at %r: the 20,000 limit is reached early (or late)' % (iv,), sure=isinstance(iv, int))
+    else:
+        r.undecided('sigops:starts-at-zero', fi.site, 'initialisation of nSigOps not found')
     for n_, v in (('MAX_BLOCK_SIZE', 1000000), ('MAX_BLOCK_WEIGHT', 4000000), ('MAX_BLOCK_SIGOPS', 20000)):
         got = repo.module_value(fi.module, n_)
         r.check(got == v, 'const:%s' % n_, fi.module.relpath + ':0', str(v), '%s is %r' % (n_, got))
@@ -313,8 +356,25 @@ def rule_helpers(ctx, repo):
         accs, loops = ['nSigOps += txin.scriptSig.GetSigOpCount(False)', 'nSigOps += txout.scriptPubKey.GetSigOpCount(False)'], ['tx.vin', 'tx.vout']
     r.check(accs == ['nSigOps += txin.scriptSig.GetSigOpCount(False)', 'nSigOps += txout.scriptPubKey.GetSigOpCount(False)'] and loops == ['tx.vin', 'tx.vout'], 'legacy-sigops', ls.site,
             'inaccurate count over every scriptSig and scriptPubKey', 'GetLegacySigOpCount sums %s over %s' % (accs, loops))
+    ls_init = [n for n in ls.node.body if isinstance(n, ast.Assign) and len(n.targets) == 1 and isinstance(n.targets[0], ast.Name)]
+    for n in ls_init:
+        if any(isinstance(a_, ast.AugAssign) and norm(a_.target) == n.targets[0].id for a_ in ast.walk(ls.node)):
+            iv = repo.fold(n.value, ls.module)
+            r.check(iv == 0 and not isinstance(iv, bool), 'legacy-sigops:starts-at-zero', common.site_of(ls, n), 'count starts at 0', 'GetLegacySigOpCount starts counting at %r' % (iv,), sure=isinstance(iv, int))
     blk = repo.get_class(CORE + 'CBlock')
     gi = repo.lookup_method(blk, 'get_witness_commitment_index')
+    # nothing matched -> ValueError (CheckBlock turns it into a rejection); the position starts out as "none"
+    gi_raises = [n for n in ast.walk(gi.node) if isinstance(n, ast.Raise) and isinstance(n.exc, ast.Call) and norm(n.exc.func) == 'ValueError']
+    gi_none = [n for n in gi.node.body if isinstance(n, ast.If) and flow.always_raises(n.body, ()) and re.match(r'^\w+ is None$', norm(n.test))]
+    if gi_none:
+        var_ = norm(gi_none[0].test).split(' ')[0]
+        init_ = [n for n in gi.node.body if isinstance(n, ast.Assign) and norm(n.targets[0]) == var_]
+        r.check(bool(init_) and isinstance(init_[0].value, ast.Constant) and init_[0].value.value is None, 'commitment-index:none-found', common.site_of(gi, gi_none[0]),
+                'no match -> ValueError', 'the position `%s` is not initialised to None before the search: a coinbase without a commitment output raises UnboundLocalError instead of ValueError' % var_, sure=True)
+    elif any(isinstance(n, ast.If) and re.match(r'^\w+ is None$', norm(n.test)) and all(isinstance(x, ast.Pass) for x in n.body) for n in gi.node.body):
+        r.violated('commitment-index:none-found', gi.site, 'the "no commitment found" test of get_witness_commitment_index no longer raises: None is handed to CheckBlock as an index', sure=True)
+    elif not any(isinstance(n, (ast.ListComp, ast.GeneratorExp)) for n in ast.walk(gi.node)):
+        r.undecided('commitment-index:none-found', gi.site, 'how a coinbase without a commitment output is answered was not recognised')
     gs = [canon_guard(n.test, repo, gi.module) for n in ast.walk(gi.node) if isinstance(n, ast.If)]
     magic = repo.module_value(gi.module, 'WITNESS_COINBASE_SCRIPTPUBKEY_MAGIC')
     r.check(magic == bytes([0x6a, 0x24, 0xaa, 0x21, 0xa9, 0xed]), 'commitment-magic', gi.site, '6a24aa21a9ed', 'commitment magic is %r' % (magic,))
